@@ -426,3 +426,8 @@ def distribution(cases, obs):
 
 def explain(case, obs):
     return 'history of %d operations, cfg %r' % (len(case['ops']), case['cfg'])
+
+
+def shrink(case, run):
+    import sys
+    return L.shrink(sys.modules[__name__], case, run)
